@@ -4,7 +4,7 @@ Premises of the representation-invariant argument (DESIGN.md C19.1–C19.6),
 each decided on the MIR of oq3_semantics::symbols for all paths / all sites.
 """
 from kernel import *
-from sym import SymExec, show, strip_transparent, must_conds
+from sym import SymExec, show, strip_transparent, must_conds, deep_strip
 
 ST = "oq3_semantics::symbols::SymbolTable"
 SST = "oq3_semantics::symbols::ScopeSymbolTable"
@@ -230,9 +230,59 @@ def run(prog, R):
         R.ob("C19.1-binding-consistent", "Symbol::new stores (name, typ)", ok, symnew.at, show(ps[0].env.get(0)) if ps else "")
 
     # ---------------- C19.3 lookup
-    nexts = [(bi, t) for bi, t in lk.calls() if (t.get("resolved") or "").endswith("::next")]
-    ok = len(nexts) == 1 and norm(nexts[0][1]["resolved"]) == "<std::iter::Rev<I> as std::iter::Iterator>::next" and "slice::Iter" in json.dumps(nexts[0][1].get("rargs")) and "ScopeSymbolTable" in json.dumps(nexts[0][1].get("rargs"))
-    R.ob("C19.3-lookup-innermost-first", "iterator-instance", ok, lk.at, f"lookup iterates with {[(norm(t['resolved']), t.get('rargs')) for _, t in nexts]}; required Rev<slice::Iter<ScopeSymbolTable>>")
+    # the combinator form `stack.iter().rev().find_map(|t| t.get_symbol_id(name)).map(|id| SymbolRecord::new(&all[id.0], id)).ok_or(Missing)`
+    # is the same search written without a loop: innermost first (one rev over the scope stack), first hit wins
+    # (find_map), the record is built from the id found, Err only when nothing was found
+    comb = None
+    for p_ in SymExec(prog, lk, max_visits=2).paths():
+        r_ = deep_strip(p_.env.get(0)) if "__diverged__" not in p_.env else None
+        if isinstance(r_, tuple) and r_[0] == "call" and r_[1].endswith("Option::ok_or"):
+            comb = r_
+    if comb is not None and not any((t.get("resolved") or "").endswith("::next") for _, t in lk.calls()):
+        okc, why = True, []
+        err_ = deep_strip(comb[2][1])
+        okc = okc and err_ == ("adt", M + "SymbolError::MissingBinding", ())
+        mp_ = deep_strip(comb[2][0])
+        okm = isinstance(mp_, tuple) and mp_[0] == "call" and mp_[1].endswith("Option::map")
+        fm_ = deep_strip(mp_[2][0]) if okm else None
+        okf = okm and isinstance(fm_, tuple) and fm_[0] == "call" and fm_[1].endswith("Iterator::find_map")
+        chain, t_ = [], deep_strip(fm_[2][0]) if okf else None
+        while isinstance(t_, tuple) and t_[0] == "call":
+            chain.append(t_[1].split("::")[-1])
+            t_ = deep_strip(t_[2][0]) if t_[2] else None
+        chain = [c for c in chain if c not in ("deref", "into_iter", "as_slice")]
+        okchain = okf and chain == ["rev", "iter"] and t_ == ("field", ("arg", 1, "self"), fields.index("scope_symbol_table_stack"))
+        R.ob("C19.3-lookup-innermost-first", "iterator-instance", okchain, lk.at, f"find_map over {chain} of {show(t_) if t_ else None}; required rev(iter(self.scope_symbol_table_stack))")
+        R.ob("C19.3-lookup-innermost-first", "iterator-provenance", okchain, lk.at, "iterator = self.scope_symbol_table_stack.iter().rev()")
+        good = okc and okm and okf
+        det_ = []
+        if good:
+            c1 = deep_strip(fm_[2][1])
+            c2 = deep_strip(mp_[2][1])
+            for cl_, want_ in ((c1, "find"), (c2, "build")):
+                cb_ = prog.body(cl_[1]) if isinstance(cl_, tuple) and cl_[0] == "closure" else None
+                if cb_ is None:
+                    good = False
+                    det_.append(f"{want_}: not a closure")
+                    continue
+                rs_ = [deep_strip(q.env.get(0)) for q in SymExec(prog, cb_).paths() if "__diverged__" not in q.env]
+                if want_ == "find":
+                    # get_symbol_id(<the table handed in>, <captured name>)
+                    okr = len(rs_) == 1 and rs_[0][0] == "call" and rs_[0][1] == M + "ScopeSymbolTable::get_symbol_id" and deep_strip(rs_[0][2][0])[0] == "arg" and cl_[2] and deep_strip(cl_[2][0]) == ("arg", 2, "name")
+                else:
+                    okr = len(rs_) == 1 and rs_[0][0] == "call" and rs_[0][1] == M + "SymbolRecord::new" and "index(" in show(rs_[0][2][0]) and show(rs_[0][2][0]).endswith(".0)") and deep_strip(rs_[0][2][1])[0] in ("arg", "call")
+                if not okr:
+                    good = False
+                    det_.append((want_, [show(x)[:80] for x in rs_]))
+        R.ob("C19.3-lookup-first-hit", "returns", good, lk.at, f"combinator form: find_map(get_symbol_id(table, name)) -> SymbolRecord::new(all_symbols[id.0], id) -> ok_or(MissingBinding) {det_}")
+        nexts = []
+        COMBINATOR_LOOKUP = True
+    else:
+        COMBINATOR_LOOKUP = False
+    nexts = [] if COMBINATOR_LOOKUP else [(bi, t) for bi, t in lk.calls() if (t.get("resolved") or "").endswith("::next")]
+    if not COMBINATOR_LOOKUP:
+        ok = len(nexts) == 1 and norm(nexts[0][1]["resolved"]) == "<std::iter::Rev<I> as std::iter::Iterator>::next" and "slice::Iter" in json.dumps(nexts[0][1].get("rargs")) and "ScopeSymbolTable" in json.dumps(nexts[0][1].get("rargs"))
+        R.ob("C19.3-lookup-innermost-first", "iterator-instance", ok, lk.at, f"lookup iterates with {[(norm(t['resolved']), t.get('rargs')) for _, t in nexts]}; required Rev<slice::Iter<ScopeSymbolTable>>")
     # provenance of the iterator: rev(slice::iter(deref(&self.scope_symbol_table_stack)))
     if nexts:
         se = SymExec(prog, lk, max_visits=2)
